@@ -23,6 +23,9 @@ ST_ = "magpylib/_src/style.py"
 TU_ = "magpylib/_src/display/traces_utility.py"
 TMF = FD + "field_BH_triangularmesh.py"
 MUTANTS = [
+    ("C07", "dict-mixed-lengths-tolerated", FWB, "    if len(set(vec_lengths.values())) > 1:", "    if len(set(vec_lengths.values())) > 2:", "red"),
+    ("C07", "dict-length-one-not-squeezed", FWB, "            if len(val) == 1:\n                val = np.squeeze(val)\n            else:\n                vec_lengths[key] = len(val)", "            vec_lengths[key] = len(val)", "red"),
+    ("C07", "dict-tile-count", FWB, "            kwargs[key] = np.tile(val, (vec_len, *[1] * (expected_dim - 1)))", "            kwargs[key] = np.tile(val, (max(vec_len - 1, 1), *[1] * (expected_dim - 1)))", "red"),
     ("C08", "cuboid-core-writes-observers", FD + "field_BH_cuboid.py", "    x, y, z = np.copy(observers).T", "    x, y, z = observers.T", "red"),
     ("C12", "cuboid-core-absolute-regulariser", FD + "field_BH_cuboid.py", "    mmm = np.sqrt(xma2 + ymb2 + zmc2)", "    mmm = np.sqrt(xma2 + ymb2 + zmc2 + 1e-30)", "red"),
     ("C05", "cuboid-core-quadratic-term", FD + "field_BH_cuboid.py", "    bz_pol_y = -pol_y * ff2x * qsigns[:, 1, 2]", "    bz_pol_y = -pol_y * abs(pol_y) * ff2x * qsigns[:, 1, 2]", "red"),
@@ -168,7 +171,7 @@ def run_one(mut, keep_log=False):
         if expect == "red":
             verdict = "caught" if red else f"MISSED(exit {r.returncode})"
         else:
-            verdict = "equivalent-ok" if r.returncode == 0 else f"FALSE-ALARM(exit {r.returncode})"
+            verdict = ("equivalent-ok" + ("(undecided)" if "UNDECIDED" in r.stdout else "")) if r.returncode == 0 else f"FALSE-ALARM(exit {r.returncode})"
         if keep_log or verdict.startswith(("MISSED", "FALSE")):
             sys.stdout.write(r.stdout[-1500:] + r.stderr[-1500:])
         return pid, name, verdict, dt
